@@ -275,3 +275,222 @@ def oracle_c15(ctx, case, res, fail):
     # a float consumer never reads integer bytes and vice versa: every op operand that is a constant
     # must have the dtype class its consumer got in C03 terms; checked there. Here: decoded values.
     oracle_c05(ctx, case, res, fail)
+
+
+# --------------------------------------------------------------------------- C04: parameters vs the TFLite-spec reference
+
+FIXED = {("SOFTMAX", 8): (1.0 / 256, -128), ("LOGISTIC", 8): (1.0 / 256, -128), ("SOFTMAX", 16): (1.0 / 32768, 0),
+         ("LOGISTIC", 16): (1.0 / 32768, 0), ("TANH", 8): (1.0 / 128, 0), ("TANH", 16): (1.0 / 32768, 0)}
+BITS_OF = {TT.INT4: 4, TT.INT8: 8, TT.INT16: 16, TT.INT32: 32, TT.INT64: 64}
+
+
+def ref_params(mn, mx, bits, sym):
+    """reference min/max formulas of the TFLite quantization spec (float64 arithmetic, independent implementation)"""
+    mn, mx = np.asarray(mn, dtype=np.float64), np.asarray(mx, dtype=np.float64)
+    qmin, qmax = -(2 ** (bits - 1)), 2 ** (bits - 1) - 1
+    if sym:
+        bound = np.maximum(np.maximum(np.abs(mn), np.abs(mx)), 1e-4)
+        return bound / qmax, np.zeros_like(bound)
+    hi, lo = np.maximum(mx, 0.0), np.minimum(mn, 0.0)
+    bound = np.maximum(hi - lo, 1e-4)
+    scale = bound / (qmax - qmin)
+    return scale, qmin - lo / scale   # unrounded zero point
+
+
+def close_params(t, scale_ref, zp_ref):
+    """does tensor t carry the reference parameters (float32 scale, rounded zero point)? returns error string or None"""
+    qz = t.quantization
+    sc = np.array(qz.scale, dtype=np.float64)
+    zp = np.array(qz.zeroPoint if qz.zeroPoint is not None else [0] * len(sc), dtype=np.float64)
+    sr, zr = np.asarray(scale_ref, dtype=np.float64).reshape(-1), np.asarray(zp_ref, dtype=np.float64).reshape(-1)
+    if len(sc) != len(sr):
+        return f"{len(sc)} scales, reference has {len(sr)}"
+    if np.any(np.abs(sc - sr) > 3e-6 * np.abs(sr) + 1e-30):
+        k = int(np.argmax(np.abs(sc - sr) / (np.abs(sr) + 1e-30)))
+        return f"scale {sc[k]:.9g} but reference {sr[k]:.9g}"
+    # zero point: round(reference) except within float32 noise of a tie
+    d = np.abs(zp - zr)
+    if np.any(d > 0.5 + 2e-3 + 1e-5 * np.abs(zr)):
+        k = int(np.argmax(d))
+        return f"zero point {int(zp[k])} but reference {zr[k]:.4f}"
+    return None
+
+
+def same_q(a, b):
+    return a.type == b.type and pl.quant_tuple(a) == pl.quant_tuple(b)
+
+
+def oracle_c04(ctx, case, res, fail, stats):
+    """stats: {sg index: {tensor name: (min, max)}} recomputed by the check from its own float interpreter run"""
+    mi, mo = pl.read(case.mb), pl.read(res["out"])
+    q = res["q"]
+    for si, (gi, go) in enumerate(zip(mi.subgraphs, mo.subgraphs)):
+        n0 = len(gi.tensors)
+        kept, inserted = kept_ops(mi, mo, si)
+        if len(kept) != len(gi.operators):
+            return
+        st = stats.get(si, {})
+        # roles of every tensor of the output graph
+        weight_role, bias_role = {}, {}
+        for a, b in zip(gi.operators, kept):
+            key = op_key_of(mi.operatorCodes[a.opcodeIndex].builtinCode)
+            if key in WEIGHT_OPS:
+                for slot, tb in enumerate(b.inputs):
+                    if tb != -1 and is_const(mo, go, tb) and go.tensors[tb].type != TT.INT32 or False:
+                        pass
+                ws = 1 if key != "BATCH_MATMUL" else 1
+                if len(b.inputs) > ws and b.inputs[ws] != -1:
+                    weight_role.setdefault(b.inputs[ws], (key, a))
+            if key in BIAS_SLOT and len(b.inputs) > BIAS_SLOT[key] and b.inputs[BIAS_SLOT[key]] != -1:
+                bias_role[b.inputs[BIAS_SLOT[key]]] = (key, a, b)
+        # 1. sanity of every quantized tensor
+        for ti, t in enumerate(go.tensors):
+            qt = pl.quant_tuple(t)
+            if qt is None:
+                continue
+            where = f"sg{si} tensor {pl.tname(t)}"
+            sc = np.array(t.quantization.scale, dtype=np.float64)
+            zp = list(t.quantization.zeroPoint) if t.quantization.zeroPoint is not None else []
+            if not np.all(np.isfinite(sc)) or np.any(sc <= 0):
+                return fail("scale not finite and positive: " + where, "scale-not-positive")
+            if len(zp) != len(sc):
+                return fail("scales and zero points of different length: " + where, "zp-len")
+            shape = [int(x) for x in t.shape]
+            if len(sc) != 1:
+                qd = t.quantization.quantizedDimension
+                if not (0 <= qd < len(shape)) or shape[qd] != len(sc):
+                    return fail(f"{len(sc)} scales do not match the quantized dimension: " + where, "qdim-size")
+                # per-channel only on a weight operand (dequantize sources of weight-only ops included) or a bias
+                src_of = [op.outputs[0] for op in inserted if op.inputs[0] == ti]
+                if ti not in weight_role and ti not in bias_role and not any(x in weight_role for x in src_of):
+                    return fail("per-channel parameters on a tensor that is not a weight/bias operand: " + where, "perchannel-nonweight")
+            bits = BITS_OF.get(t.type)
+            if bits is None:
+                return fail("quantization parameters on a non-integer tensor: " + where, "params-on-nonint")
+            lo, hi = -(2 ** (bits - 1)), 2 ** (bits - 1) - 1
+            if any(z < lo or z > hi for z in zp):
+                return fail("zero point outside the range of the tensor type: " + where, "zp-range")
+            ctx.tag("quantized_tensor")
+        # 2. op-level rules, per original op as wired in the output graph
+        for oi, (a, b) in enumerate(zip(gi.operators, kept)):
+            code = mi.operatorCodes[a.opcodeIndex].builtinCode
+            key = op_key_of(code)
+            if key is None:
+                continue
+            scope = "".join(pl.tname(gi.tensors[t]) + ";" for t in a.outputs if t != -1)
+            mode, cfg = mode_of(q, key, scope)
+            where = f"sg{si} op{oi} {key}"
+            if mode == "srq":
+                abits = cfg.activation_tensor_config.num_bits
+                asym = bool(cfg.activation_tensor_config.symmetric)
+                outs = [go.tensors[x] for x in b.outputs if x != -1]
+                if key in SAME_AS_INPUT:
+                    tin = go.tensors[b.inputs[SAME_AS_INPUT[key]]]
+                    for to in outs:
+                        if not same_q(tin, to):
+                            return fail("output does not share its input's parameters: " + where, "same-as-input")
+                    ctx.tag("rule_same_as_input")
+                    continue_free = False
+                elif key == "CONCATENATION":
+                    for x in b.inputs:
+                        if x != -1 and not same_q(go.tensors[x], outs[0]):
+                            return fail("concatenation input does not share the output's parameters: " + where, "concat-same-as-output")
+                    ctx.tag("rule_concat")
+                    continue_free = True
+                else:
+                    continue_free = True
+                if (key, abits) in FIXED and key in ("SOFTMAX", "LOGISTIC", "TANH"):
+                    fs, fz = FIXED[(key, abits)]
+                    qz = outs[0].quantization
+                    if abs(qz.scale[0] - fs) > 1e-9 or int(qz.zeroPoint[0]) != fz:
+                        return fail(f"fixed output range of the runtime kernel not used ({qz.scale[0]}, {qz.zeroPoint[0]}): " + where, "fixed-range")
+                    ctx.tag("rule_fixed_range")
+                    continue_free = False
+                # symmetric config => zero point 0 (fixed-range outputs excluded above)
+                for x in list(b.inputs) + list(b.outputs):
+                    if x == -1 or pl.quant_tuple(go.tensors[x]) is None or x in bias_role:
+                        continue
+                    t = go.tensors[x]
+                    is_w = key in WEIGHT_OPS and x in weight_role and is_const(mo, go, x)
+                    sym = bool(cfg.weight_tensor_config.symmetric) if is_w else asym
+                    fixed_producer = False
+                    if x in b.inputs and x < n0 or x >= n0:
+                        pass
+                    if sym and any(int(z) != 0 for z in t.quantization.zeroPoint) and not _fixed_output(mi, mo, gi, go, kept, x):
+                        return fail(f"symmetric config but zero point {list(t.quantization.zeroPoint)[:3]} on {pl.tname(t)}: " + where, "sym-zp")
+                # bias rule
+                if key in BIAS_SLOT and len(b.inputs) > BIAS_SLOT[key] and b.inputs[BIAS_SLOT[key]] != -1:
+                    tb = go.tensors[b.inputs[BIAS_SLOT[key]]]
+                    tin = go.tensors[b.inputs[INPUT_SLOT[key]]]
+                    tw = go.tensors[b.inputs[WEIGHT_SLOT[key]]]
+                    want_t = TT.INT64 if abits == 16 else TT.INT32
+                    if tb.type != want_t:
+                        return fail("bias type does not match the activation width: " + where, "bias-type")
+                    bs = np.array(tb.quantization.scale, dtype=np.float32)
+                    ws = np.array(tw.quantization.scale, dtype=np.float32)
+                    eff = (np.float32(tin.quantization.scale[0]) * ws).astype(np.float32)
+                    if len(bs) != len(eff) or np.any(np.abs(bs.astype(np.float64) - eff.astype(np.float64)) > 1e-6 * np.abs(eff) + 1e-38) \
+                            or any(int(z) != 0 for z in tb.quantization.zeroPoint):
+                        return fail("bias scale is not input scale x weight scale with zero point 0: " + where, "bias-scale")
+                    ctx.tag("rule_bias")
+                # weights: true per-tensor / per-channel min/max of the original constant
+                if key in WEIGHT_OPS and len(b.inputs) > WEIGHT_SLOT[key]:
+                    err = _check_weight(mi, gi, go, a, b, key, cfg, where)
+                    if err:
+                        return fail(err, "weight-params")
+                # free activations: reference formulas on the recomputed statistics
+                if continue_free:
+                    for x_orig, x in zip(a.outputs, b.outputs):
+                        if x == -1 or (key, abits) in FIXED:
+                            continue
+                        name = pl.tname(gi.tensors[x_orig])
+                        t = go.tensors[x]
+                        if name in st and pl.quant_tuple(t) is not None and gi.tensors[x_orig].type == TT.FLOAT32:
+                            s_ref, z_ref = ref_params(st[name][0], st[name][1], abits, asym)
+                            err = close_params(t, s_ref, z_ref)
+                            if err:
+                                return fail(f"output {name} does not carry the reference parameters of its statistics ({err}): " + where, "act-ref")
+                            ctx.tag("act_reference_checked")
+            elif mode in ("drq", "wo") and key in WEIGHT_OPS and len(b.inputs) > WEIGHT_SLOT[key]:
+                err = _check_weight(mi, gi, go, a, b, key, cfg, where, through_dq=(mode == "wo"), mo=mo)
+                if err:
+                    return fail(err, "weight-params")
+
+
+def _fixed_output(mi, mo, gi, go, kept, x):
+    """is tensor x (or the tensor it was derived from) the output of a softmax/logistic/tanh/same-scale chain"""
+    return True if x >= len(gi.tensors) else any(
+        op_key_of(mi.operatorCodes[a.opcodeIndex].builtinCode) in ("SOFTMAX", "LOGISTIC", "TANH", "RESHAPE", "TRANSPOSE", "SPLIT", "STRIDED_SLICE",
+                                                                    "AVERAGE_POOL_2D", "CONCATENATION") and x in a.outputs or x in a.inputs
+        for a in gi.operators)
+
+
+def _check_weight(mi, gi, go, a, b, key, cfg, where, through_dq=False, mo=None):
+    wslot = WEIGHT_SLOT[key]
+    ta = a.inputs[wslot]
+    if ta == -1 or mi.buffers[gi.tensors[ta].buffer].data is None or gi.tensors[ta].type != TT.FLOAT32:
+        return None
+    tw = go.tensors[ta]
+    if pl.quant_tuple(tw) is None:
+        return None
+    wc = cfg.weight_tensor_config
+    orig = gi.tensors[ta]
+    shape = [int(x) for x in orig.shape]
+    data = np.frombuffer(np.asarray(mi.buffers[orig.buffer].data, dtype=np.uint8).tobytes(), dtype="<f4").astype(np.float64).reshape(shape)
+    gran = str(getattr(wc.granularity, "value", wc.granularity))
+    if gran == "CHANNELWISE":
+        if key == "BATCH_MATMUL":
+            qd = len(shape) - 2 if (a.builtinOptions is not None and a.builtinOptions.adjY) else len(shape) - 1
+        else:
+            qd = WEIGHT_QDIM[key]
+        red = tuple(d for d in range(len(shape)) if d != qd)
+        mn, mx = data.min(axis=red), data.max(axis=red)
+        if len(tw.quantization.scale) > 1 and tw.quantization.quantizedDimension != qd:
+            return f"per-channel weight quantized along dimension {tw.quantization.quantizedDimension}, the runtime kernel expects {qd}: " + where
+    else:
+        mn, mx = data.min(), data.max()
+    s_ref, z_ref = ref_params(mn, mx, wc.num_bits, bool(wc.symmetric))
+    err = close_params(tw, s_ref, np.rint(z_ref) if not wc.symmetric else z_ref)
+    if err:
+        return f"weight {pl.tname(orig)} does not carry the reference parameters of its true min/max ({err}): " + where
+    return None
